@@ -31,7 +31,8 @@ CONSTANTS Cons, Phase, Wiper
 VARIABLES pc,        \* [Cons -> "run","built","locked","attached","rollA","rerun","done","stuck"]
           saw,       \* what BuildGraph read: "avail" | "lost" | "recovering" | "none"
           dec,       \* decision of Synchronize: "attach" | "rollback" | "alone" | "none"
-          statusA,   \* "completed" | "recovering"
+          statusA,   \* scheduler status of the producer: "completed" | "fireable" (rolled back and scheduled again by a
+                     \* recovery workflow, inputs being staged) | "running"; recovering = not completed
           execsA,    \* executions of the producer
           wiped,     \* the fail-stop has happened
           losses,    \* number of loss events
@@ -49,7 +50,7 @@ FailBuild(c) ==
   /\ LET w == wiped \/ c = Wiper IN
      /\ wiped' = w
      /\ losses' = IF c = Wiper THEN losses + 1 ELSE losses
-     /\ saw' = [saw EXCEPT ![c] = IF ~w THEN "avail" ELSE IF statusA = "recovering" THEN "recovering" ELSE "lost"]
+     /\ saw' = [saw EXCEPT ![c] = IF ~w THEN "avail" ELSE IF statusA # "completed" THEN "recovering" ELSE "lost"]
   /\ pc' = [pc EXCEPT ![c] = "built"]
   /\ trace' = Append(trace, <<"fail", c>>)
   /\ UNCHANGED <<dec, statusA, execsA, lockA>>
@@ -67,19 +68,26 @@ Sync(c) ==
   /\ pc[c] = "locked"
   /\ IF saw[c] = "avail"
        THEN /\ dec' = [dec EXCEPT ![c] = "alone"] /\ pc' = [pc EXCEPT ![c] = "rerun"] /\ UNCHANGED statusA
-       ELSE IF statusA = "recovering"
+       ELSE IF statusA # "completed"      \* is_recovering: ROLLBACK, FIREABLE or RUNNING
        THEN /\ dec' = [dec EXCEPT ![c] = "attach"]
             /\ pc' = [pc EXCEPT ![c] = IF Phase[c] = "s" /\ saw[c] = "lost" THEN "stuck" ELSE "attached"]
             /\ UNCHANGED statusA
-       ELSE /\ dec' = [dec EXCEPT ![c] = "rollback"] /\ pc' = [pc EXCEPT ![c] = "rollA"] /\ statusA' = "recovering"
+       ELSE /\ dec' = [dec EXCEPT ![c] = "rollback"] /\ pc' = [pc EXCEPT ![c] = "rollA"] /\ statusA' = "fireable"
   /\ lockA' = IF lockA = c THEN "none" ELSE lockA
   /\ trace' = Append(trace, <<"sync", c>>)
   /\ UNCHANGED <<saw, execsA, wiped, losses>>
 
 \* the re-execution of the producer in c's recovery workflow completes; the boundary rules hand the new
 \* token to every attached recovery
+\* the regenerated producer leaves the stage-in phase: ExecuteStep._run_job notifies RUNNING
+StartA(c) ==
+  /\ pc[c] = "rollA" /\ statusA = "fireable"
+  /\ statusA' = "running"
+  /\ trace' = Append(trace, <<"startA", c>>)
+  /\ UNCHANGED <<pc, saw, dec, execsA, wiped, losses, lockA>>
+
 FinishA(c) ==
-  /\ pc[c] = "rollA"
+  /\ pc[c] = "rollA" /\ statusA = "running"
   /\ execsA' = execsA + 1 /\ statusA' = "completed"
   /\ pc' = [x \in Cons |-> IF x = c \/ pc[x] = "attached" THEN "rerun" ELSE pc[x]]
   /\ trace' = Append(trace, <<"finishA", c>>)
@@ -90,10 +98,11 @@ Rerun(c) == /\ pc[c] = "rerun" /\ pc' = [pc EXCEPT ![c] = "done"]
 
 Settled == \A c \in Cons : pc[c] \in {"done", "stuck"}
 Done == Settled /\ UNCHANGED vars          \* explicit stuttering: TLC's deadlock check then means a real deadlock
-Next == (\E c \in Cons : FailBuild(c) \/ Lock(c) \/ Sync(c) \/ FinishA(c) \/ Rerun(c)) \/ Done
-Spec == Init /\ [][Next]_vars /\ WF_vars(\E c \in Cons : FailBuild(c) \/ Lock(c) \/ Sync(c) \/ FinishA(c) \/ Rerun(c))
+Step(c) == FailBuild(c) \/ Lock(c) \/ Sync(c) \/ StartA(c) \/ FinishA(c) \/ Rerun(c)
+Next == (\E c \in Cons : Step(c)) \/ Done
+Spec == Init /\ [][Next]_vars /\ WF_vars(\E c \in Cons : Step(c))
 
-TypeOK == /\ statusA \in {"completed", "recovering"} /\ lockA \in Cons \cup {"none"}
+TypeOK == /\ statusA \in {"completed", "fireable", "running"} /\ lockA \in Cons \cup {"none"}
 \* ---- the properties of the statement
 AtMostOncePerLoss == execsA <= 1 + losses
 NoneStuck == \A c \in Cons : pc[c] # "stuck"
